@@ -95,16 +95,20 @@ impl Lexica {
         for w in self.words.iter().filter(|w| w.dic == dic) {
             let units = |us: &Vec<(usize, u32, bool)>| -> String {
                 if us.is_empty() {
-                    "*".to_string()
+                    "*".to_string() // replaced below by one of the two spellings of "none"
                 } else {
                     format!("\"{}\"", us.iter().map(|u| self.unit_text(dic, u)).collect::<Vec<_>>().join("/"))
                 }
             };
             let lr = if w.indexed { 0 } else { -1 };
             let mode = if w.a.is_empty() && w.b.is_empty() { "A" } else { "C" };
+            // the lexicon format has two spellings of "no units / no structure / no synonyms": `*` and the empty column
+            // (parse_splits, parse_wordid_list, parse_u32_list accept both); which one a row uses follows from its position
+            let none = |col: usize| -> &'static str { if (w.idx as usize + w.dic + col) % 2 == 0 { "" } else { "*" } };
+            let col = |c: usize, us: &Vec<(usize, u32, bool)>| -> String { if us.is_empty() { none(c).to_string() } else { units(us) } };
             s.push_str(&format!(
-                "{},{},{},{},{},{},{},{},*,{},{},{},*,*\n",
-                w.key, lr, 0, w.cost, w.head, pos_of_key(&w.key), Self::reading(w), w.key, mode, units(&w.a), units(&w.b)
+                "{},{},{},{},{},{},{},{},*,{},{},{},{},{}\n",
+                w.key, lr, 0, w.cost, w.head, pos_of_key(&w.key), Self::reading(w), w.key, mode, col(15, &w.a), col(16, &w.b), none(17), none(18)
             ));
         }
         s
@@ -936,6 +940,46 @@ fn run_case(sink: &mut Sink, lx: &Lexica, dict: &Dict, ci: &CaseIn, ill_formed: 
                     }
                 }
             }
+            // one result list shared by several tokenizers over the dictionary (what `out=` of the bindings does), each with
+            // its own mode and field request, collecting in turn -- narrow requests first, every tokenizer more than once:
+            // what each call leaves in the list must be the tokenisation of its mode
+            let narrow = InfoSubset::from_bits_truncate(if hash_of(&ci.text) % 3 == 0 { 0 } else { 1 }) | cover;
+            let drawn = InfoSubset::from_bits_truncate(((hash_of(&ci.text) >> 20) % 1024) as u32) | cover;
+            let shared = catch(|| {
+                let mut toks = vec![
+                    (Mode::C, { let mut t = StatefulTokenizer::new(dict.clone(), Mode::C); t.set_subset(narrow); t }),
+                    (Mode::A, StatefulTokenizer::new(dict.clone(), Mode::A)),
+                    (Mode::B, { let mut t = StatefulTokenizer::new(dict.clone(), Mode::B); t.set_subset(drawn); t }),
+                    (Mode::A, { let mut t = StatefulTokenizer::new(dict.clone(), Mode::C); t.set_subset(drawn); t.set_mode(Mode::A); t }),
+                ];
+                let order: [usize; 10] = [0, 1, 1, 2, 0, 2, 3, 1, 3, 2];
+                let mut list = MorphemeList::empty(dict.clone());
+                let mut seen = vec![];
+                for k in order {
+                    let (m, tok) = &mut toks[k];
+                    tok.reset().push_str(&ci.text);
+                    tok.do_tokenize().expect("tokenisation error");
+                    list.collect_results(tok).expect("collect");
+                    seen.push((k, *m, observe(&list)));
+                }
+                seen
+            });
+            match shared {
+                Err(p) => sink.fail(id, &format!("tokenizers sharing one result list: panic: {}", p), ""),
+                Ok(seen) => {
+                    for (n, (k, m, got)) in seen.iter().enumerate() {
+                        let exp: &Vec<Tok> = match m {
+                            Mode::A => a.as_ref().unwrap(),
+                            Mode::B => b.as_ref().unwrap(),
+                            Mode::C => &c.ctoks,
+                        };
+                        if got != exp {
+                            sink.fail(id, &format!("tokenizers sharing one result list (0: mode C request {:?}, 1: mode A all fields, 2: mode B request {:?}, 3: mode A request {:?}; calls 0 1 1 2 0 2 3 1 3 2): call {} (tokenizer {}, mode {:?}) leaves {:?}, the mode's tokenisation is {:?}", narrow, drawn, drawn, n, k, m, got, exp), "");
+                            break;
+                        }
+                    }
+                }
+            }
         }
     }
 }
@@ -1012,7 +1056,7 @@ fn key_length_boundary(sink: &mut Sink, cfg: &str) {
 pub fn run(args: &Args) {
     let mut sink = Sink::new("C09", &args.out, &["Model.Split", "Model.SplitSource"], args.seed, &args.tier);
     sink.shard_size = 100;
-    sink.rule("generated system + 0..2 user dictionaries (atoms of 1/2/3/4-byte code points, headwords (column 4) often of another byte length than the key, compounds declaring A and B units by id, U-id or inline reference: system->system, user->system, user->user; homographs; user copies of system words (same key, headword, POS, reading) referenced inline, so that the own-rows-first look-up order matters; words with exactly one unit; unindexed unit targets) compiled by DictBuilder and loaded with DefaultInputTextPlugin + a rewrite.def whose rules change byte lengths, under path-rewrite stacks {none, JoinKatakanaOovPlugin minLength 1..4, JoinNumericPlugin, both} over dictionaries whose katakana / numeral words declare units (a token merged by a plugin declares none: unchanged in A/B, split_into false); texts = 1..4 dictionary words / stray characters, randomly re-spelt in pre-normalisation form (upper case, full width, ㌔, rewrite rules); per text: C, A, B tokenisation by tokenizers that are fresh or were switched between modes (set_mode history, with analyses in between) before, A and B again under restricted field requests (nothing, single fields, two drawn from the text; both orders of set_subset / set_mode; directly and through split_into on a mode-C result), and split_into(A/B) of every C token (sub-token ranges also checked against the unit key lengths); non-trivial = some C token declares >= 2 units; a separate malformed stream uses ill-formed declarations (unit list too short / first unit longer than the text)");
+    sink.rule("generated system + 0..2 user dictionaries (atoms of 1/2/3/4-byte code points, headwords (column 4) often of another byte length than the key, compounds declaring A and B units by id, U-id or inline reference: system->system, user->system, user->user; no-units columns written as `*` or as the empty column; homographs; user copies of system words (same key, headword, POS, reading) referenced inline, so that the own-rows-first look-up order matters; words with exactly one unit; unindexed unit targets) compiled by DictBuilder and loaded with DefaultInputTextPlugin + a rewrite.def whose rules change byte lengths, under path-rewrite stacks {none, JoinKatakanaOovPlugin minLength 1..4, JoinNumericPlugin, both} over dictionaries whose katakana / numeral words declare units (a token merged by a plugin declares none: unchanged in A/B, split_into false); texts = 1..4 dictionary words / stray characters, randomly re-spelt in pre-normalisation form (upper case, full width, ㌔, rewrite rules); per text: C, A, B tokenisation by tokenizers that are fresh or were switched between modes (set_mode history, with analyses in between) before, A and B again under restricted field requests (nothing, single fields, two drawn from the text; both orders of set_subset / set_mode; directly and through split_into on a mode-C result), and split_into(A/B) of every C token (sub-token ranges also checked against the unit key lengths); one result list shared by four tokenizers of different modes and field requests collecting in turn; non-trivial = some C token declares >= 2 units; a separate malformed stream uses ill-formed declarations (unit list too short / first unit longer than the text)");
     let res = prepare_resources(&args.work);
     let cfg = config_json(&res, "");
     if let Some(p) = &args.replay {
@@ -1043,9 +1087,13 @@ pub fn run(args: &Args) {
         lx.words.push(Word { dic: 0, idx: 0, key: "ab".into(), head: "AB".into(), cost: 1000, indexed: true, shadow_of: None, a: vec![(0, 1, false), (0, 2, false)], b: vec![(0, 1, false), (0, 2, false)] });
         lx.words.push(Word { dic: 0, idx: 1, key: "a".into(), head: "A".into(), cost: 1000, indexed: false, shadow_of: None, a: vec![], b: vec![] });
         lx.words.push(Word { dic: 0, idx: 2, key: "b".into(), head: "B".into(), cost: 1000, indexed: false, shadow_of: None, a: vec![], b: vec![] });
+        // B units only; its split-a column is written as the empty string (idx 3: see Lexica::csv), that of word 4 as `*`
+        lx.words.push(Word { dic: 0, idx: 3, key: "ba".into(), head: "BA".into(), cost: 900, indexed: true, shadow_of: None, a: vec![], b: vec![(0, 2, false), (0, 1, false)] });
+        lx.words.push(Word { dic: 0, idx: 4, key: "bb".into(), head: "BB".into(), cost: 900, indexed: true, shadow_of: None, a: vec![], b: vec![(0, 2, false), (0, 2, false)] });
+        lx.words.push(Word { dic: 0, idx: 5, key: "aa".into(), head: "AA".into(), cost: 900, indexed: true, shadow_of: None, a: vec![(0, 1, false), (0, 1, false)], b: vec![] });
         let sys_csv = lx.csv(0);
         let dict: Dict = Rc::new(build_dict(&sys_csv, &[], &cfg).expect("corpus dictionary"));
-        for text in ["ＡＢ", "ab", "AB", "abab", "xＡb。", ""] {
+        for text in ["ＡＢ", "ab", "AB", "abab", "xＡb。", "", "ba", "bbaa", "xbaab"] {
             let ci = CaseIn { sys_csv: sys_csv.clone(), user_csvs: vec![], text: text.to_string(), path_rewrite: String::new() };
             run_case(&mut sink, &lx, &dict, &ci, false, false);
             sink.tag("corpus_split_alpha");
